@@ -4,7 +4,10 @@ import (
 	"go/ast"
 	"go/token"
 	"go/types"
+	"sort"
 	"strings"
+
+	"golang.org/x/tools/go/cfg"
 )
 
 func init() { register("C18", rulesC18, nil) }
@@ -66,6 +69,12 @@ func rulesC18(c *Ctx) {
 		arm, rearm := false, false
 		for _, call := range f.CallsIn(f.Body, af, false) {
 			l := f.LitArg(call, 1)
+			if l == nil && len(call.Args) == 2 {
+				// the callback held in a local that is written once
+				if fl, isFL := ast.Unparen(f.valueOf(call.Args[1])).(*ast.FuncLit); isFL {
+					l = f.Root().LitFor(fl)
+				}
+			}
 			okCb := l != nil && len(l.CallsIn(l.Body, ns, false)) == 1 && l.ObjOf(l.CallsIn(l.Body, ns, false)[0].Args[0]) == types.Object(nameParam)
 			as, _ := f.ParentOf(call).(*ast.AssignStmt)
 			okSlot := false
@@ -87,9 +96,26 @@ func rulesC18(c *Ctx) {
 		}
 		// arming and re-arming differ only in the nil test of the slot: a re-arm that depends on anything else (the
 		// timer not having fired yet, say) leaves the last change of a burst without a timer in front of it
+		// … except that a re-arm may ask Stop() whether the timer is still waiting (false: it has expired, its callback is
+		// queued behind the lock held here, will clear the slot and snapshot after this change — nothing to arm).  That
+		// reading of "false" is right only if no timer that was stopped for good stays in the slot: every Stop() whose
+		// answer is dropped is followed on every path by taking the entry out of the slot (or by a Reset)
+		isTimerCall := func(call *ast.CallExpr, name string) bool {
+			fn := f.Callee(call)
+			return fn != nil && fn.Name() == name && fn.Pkg() != nil && fn.Pkg().Path() == "time" && fn.Type().(*types.Signature).Recv() != nil
+		}
+		stopAsked := false
 		guardSet := func(call *ast.CallExpr) map[string]bool {
 			out := map[string]bool{}
 			for _, a := range g.GuardsAt(g.VertexOf(call)) {
+				if ce, isC := ast.Unparen(a.E).(*ast.CallExpr); isC && a.Val && isTimerCall(ce, "Stop") && isTimerCall(call, "Reset") {
+					if rs, isSel := ast.Unparen(call.Fun).(*ast.SelectorExpr); isSel {
+						if ss, isSel2 := ast.Unparen(ce.Fun).(*ast.SelectorExpr); isSel2 && f.ObjOf(rs.X) != nil && f.ObjOf(rs.X) == f.ObjOf(ss.X) {
+							stopAsked = true
+							continue
+						}
+					}
+				}
 				if _, _, isNil := NilTest(a.E); isNil {
 					continue
 				}
@@ -109,6 +135,34 @@ func rulesC18(c *Ctx) {
 		for _, call := range f.AllCalls(f.Body, false) {
 			if fn := f.Callee(call); fn != nil && fn.Name() == "Reset" && fn.Pkg() != nil && fn.Pkg().Path() == "time" {
 				rearmSet = guardSet(call)
+			}
+		}
+		if stopAsked {
+			for _, call := range f.AllCalls(f.Body, false) {
+				if _, dropped := f.ParentOf(call).(*ast.ExprStmt); !dropped || !isTimerCall(call, "Stop") {
+					continue
+				}
+				okClr, path := g.PostDominatedBy(g.VertexOf(call), func(v int) bool {
+					n := g.Node(v)
+					if n == nil {
+						return false
+					}
+					for _, c2 := range f.AllCalls(n, false) {
+						if f.BuiltinName(c2) == "delete" && len(c2.Args) == 2 && f.IsField(c2.Args[0], pend) {
+							return true
+						}
+						if isTimerCall(c2, "Reset") {
+							return true
+						}
+					}
+					for _, w := range Writes(n, false) {
+						if m, _, ok := indexOf(w.LHS); ok && f.IsField(m, pend) && w.RHS != nil && isNilIdent(w.RHS) {
+							return true
+						}
+					}
+					return false
+				})
+				c.Check(okClr, "changeAndNotify:stopped-timer-leaves-the-slot", f, call, "re-arming asks Stop() and reads false as \"the callback is about to run and will see this change\", so a timer stopped for good is taken out of the slot on every path %s — left there, every later change of that kind finds Stop() == false and arms nothing, for the life of the server", g.PathString(path))
 			}
 		}
 		same := armSet != nil && rearmSet != nil && len(armSet) == len(rearmSet)
@@ -578,9 +632,10 @@ func rulesC18(c *Ctx) {
 							got[cs.Sel.Name] = v
 						}
 					}
-					if fn.Name() == "invalidateKey" {
+					for ai := range call.Args {
+						ai := ai
 						c.Check(func() bool {
-							s, ok := ast.Unparen(call.Args[0]).(*ast.SelectorExpr)
+							s, ok := ast.Unparen(call.Args[ai]).(*ast.SelectorExpr)
 							if !ok || s.Sel.Name != "URI" {
 								return false
 							}
@@ -795,44 +850,72 @@ func rulesC18(c *Ctx) {
 					c.Check(f.Root().Obj.Name() == "invalidate", "methodCache:clear-only-in-invalidate:"+f.Name(), f, call, "the whole cache is dropped only by invalidate (a stale page found by get evicts that page, not its neighbours: other pages are what lookupTool reads the x-mcp-header annotations from)")
 				case f.BuiltinName(call) == "delete" && len(call.Args) == 2 && f.IsField(call.Args[0], cvF0):
 					nDrop++
-					keyP := f.Root().ParamWhere(func(t types.Type) bool { b, ok := t.(*types.Basic); return ok && b.Kind() == types.String })
-					c.Check(keyP != nil && f.ObjOf(call.Args[1]) == types.Object(keyP), "methodCache:delete-own-key:"+f.Name(), f, call, "a single-entry eviction removes the key the method was asked about")
+					c.Check(c18OwnKey(f, call.Args[1]), "methodCache:delete-own-key:"+f.Name(), f, call, "a single-entry eviction removes the key the method was asked about")
 				}
 			}
 		}
 		c.Pin("evictions in methodCache", nDrop, 3)
 		c.Check(okCmp, "putIfCurrent:stores-only-if-generation-unchanged", p, nil, "the store happens only under mc.gen == gen, with the cache lock held")
-		// every invalidation method reachable from the notification handlers bumps gen
-		for _, name := range []string{"invalidate", "invalidateKey"} {
+		// every invalidation method the notification handlers call bumps gen — on every call, and for every key it is asked about
+		var invNames []string
+		for hn := range caches {
+			hf := c.P.FuncOf(c.P.LookupFuncObj(pM, "Client", hn))
+			if hf == nil {
+				continue
+			}
+			for _, call := range hf.AllCalls(hf.Body, true) {
+				fn := hf.Callee(call)
+				if fn == nil || fn.Type().(*types.Signature).Recv() == nil {
+					continue
+				}
+				if rn := namedOf(fn.Type().(*types.Signature).Recv().Type()); rn == nil || rn.Origin().Obj().Name() != "methodCache" {
+					continue
+				}
+				seen := false
+				for _, nm := range invNames {
+					seen = seen || nm == fn.Name()
+				}
+				if !seen {
+					invNames = append(invNames, fn.Name())
+				}
+			}
+		}
+		sort.Strings(invNames)
+		c.Need(len(invNames) > 0, "methodCache: the invalidation methods the notification handlers call")
+		for _, name := range invNames {
 			f := c.Fn(pM, "methodCache", name)
 			fg := f.Graph()
-			bump := -1
-			for _, w := range f.FieldWrites(f.Body, genF, false) {
-				if id, ok := w.(*ast.IncDecStmt); ok && id.Tok == token.INC {
-					bump = fg.VertexOf(w)
+			isBump := func(v int) bool {
+				n := fg.Node(v)
+				if n == nil {
+					return false
 				}
+				for _, w := range f.FieldWrites(n, genF, false) {
+					if id, ok := w.(*ast.IncDecStmt); ok && id.Tok == token.INC && f.heldLocal(w)["methodCache.mu"] {
+						return true
+					}
+				}
+				return false
 			}
-			ok := bump >= 0 && f.heldLocal(fg.Node(bump))["methodCache.mu"]
-			if ok {
-				ok, _ = fg.MustPass(fg.Entry, fg.Exits, func(v int) bool { return v == bump })
-			}
-			c.Check(ok, name+":moves-generation", f, nil, "%s increments the generation under the cache lock on every path (a per-key invalidation must also defeat an in-flight read of that key, which is not cached yet)", name)
-			// … and drops what is cached: clear(cachedValues) for the whole-cache form, delete(cachedValues, key) for the keyed one
+			c.Check(c18EveryAskPasses(f, isBump), name+":moves-generation", f, nil, "%s increments the generation under the cache lock on every path, once the cache is asked about anything (a per-key invalidation must also defeat an in-flight read of that key, which is not cached yet: no test of the key's presence stands before the increment)", name)
+			// … and drops what is cached: clear(cachedValues) for the whole-cache form, delete(cachedValues, key) for a keyed one
 			cvF := c.Field(pM, "methodCache", "cachedValues")
-			drop := -1
-			for _, call := range f.AllCalls(f.Body, false) {
-				switch {
-				case name == "invalidate" && f.BuiltinName(call) == "clear" && len(call.Args) == 1 && f.IsField(call.Args[0], cvF):
-					drop = fg.VertexOf(call)
-				case name == "invalidateKey" && f.BuiltinName(call) == "delete" && len(call.Args) == 2 && f.IsField(call.Args[0], cvF) && f.ObjOf(call.Args[1]) == types.Object(f.NonRecvParams()[0]):
-					drop = fg.VertexOf(call)
+			isDrop := func(v int) bool {
+				n := fg.Node(v)
+				if n == nil {
+					return false
 				}
+				for _, call := range f.AllCalls(n, false) {
+					switch {
+					case f.BuiltinName(call) == "clear" && len(call.Args) == 1 && f.IsField(call.Args[0], cvF):
+						return f.heldLocal(call)["methodCache.mu"]
+					case f.BuiltinName(call) == "delete" && len(call.Args) == 2 && f.IsField(call.Args[0], cvF) && c18OwnKey(f, call.Args[1]):
+						return f.heldLocal(call)["methodCache.mu"]
+					}
+				}
+				return false
 			}
-			okDrop := drop >= 0 && f.heldLocal(fg.Node(drop))["methodCache.mu"]
-			if okDrop {
-				okDrop, _ = fg.MustPass(fg.Entry, fg.Exits, func(v int) bool { return v == drop })
-			}
-			c.Check(okDrop, name+":drops-cached-values", f, nil, "%s removes the cached value(s) under the cache lock on every path: after the notification was handled the next list/read goes to the server", name)
+			c.Check(c18EveryAskPasses(f, isDrop), name+":drops-cached-values", f, nil, "%s removes the cached value(s) under the cache lock on every path: after the notification was handled the next list/read goes to the server", name)
 		}
 	})
 
@@ -943,4 +1026,117 @@ func mentionsName(e ast.Expr, name string) bool {
 		return true
 	})
 	return found
+}
+
+// c18OwnKey: e is a key the method was asked about — a string parameter, or the element variable of a range over a
+// parameter that is a list of strings (the variadic form of the same request).
+func c18OwnKey(f *Func, e ast.Expr) bool {
+	o := f.ObjOf(e)
+	if o == nil {
+		return false
+	}
+	isStr := func(t types.Type) bool { b, ok := t.Underlying().(*types.Basic); return ok && b.Kind() == types.String }
+	for _, p := range f.Root().NonRecvParams() {
+		if types.Object(p) == o && isStr(p.Type()) {
+			return true
+		}
+	}
+	found := false
+	inspectNoLit(f.Root().Body, func(n ast.Node) {
+		rs, ok := n.(*ast.RangeStmt)
+		if !ok || rs.Value == nil || f.ObjOf(rs.Value) != o {
+			return
+		}
+		sl, isSl := f.TypeOf(rs.X).Underlying().(*types.Slice)
+		if !isSl || !isStr(sl.Elem()) {
+			return
+		}
+		for _, p := range f.Root().NonRecvParams() {
+			if f.ObjOf(rs.X) == types.Object(p) {
+				found = true
+			}
+		}
+	})
+	return found
+}
+
+// c18EveryAskPasses: every call of the method passes a vertex satisfying via — and when the method walks a list of keys
+// it was handed, every key does: either every entry→return path passes via, or the only paths that do not are those
+// that skip a range loop over a parameter which is known to be non-empty there (`len(p) == 0` was answered before), and
+// inside that loop no iteration gets back to the loop head without passing via.
+func c18EveryAskPasses(f *Func, via func(int) bool) bool {
+	g := f.Graph()
+	if ok, _ := g.MustPass(g.Entry, g.Exits, via); ok {
+		return true
+	}
+	cut := map[int]bool{} // end vertices of range-loop heads whose "done" edge cannot be the first edge taken
+	for i, b := range g.C.Blocks {
+		if !b.Live || b.Kind != cfg.KindRangeLoop || len(b.Succs) != 2 {
+			continue
+		}
+		rs, _ := b.Stmt.(*ast.RangeStmt)
+		if rs == nil {
+			continue
+		}
+		var param *types.Var
+		for _, p := range f.Root().NonRecvParams() {
+			if f.ObjOf(rs.X) == types.Object(p) {
+				param = p
+			}
+		}
+		if param == nil {
+			continue
+		}
+		nonEmpty := hasAtom(g.GuardsAt(g.off[i]), func(a Atom) bool {
+			x, y, op, ok := binaryCmp(a.E)
+			if !ok {
+				return false
+			}
+			ce, isC := ast.Unparen(x).(*ast.CallExpr)
+			if !isC || f.BuiltinName(ce) != "len" || len(ce.Args) != 1 || f.ObjOf(ce.Args[0]) != types.Object(param) {
+				return false
+			}
+			k, isK := f.ConstInt(y)
+			if !isK {
+				return false
+			}
+			switch {
+			case op == token.EQL && k == 0:
+				return !a.Val
+			case (op == token.NEQ || op == token.GTR) && k == 0:
+				return a.Val
+			case op == token.GEQ && k == 1:
+				return a.Val
+			case op == token.LSS && k == 1:
+				return !a.Val
+			}
+			return false
+		})
+		if !nonEmpty {
+			continue
+		}
+		ev := g.off[i] + len(b.Nodes)
+		// every iteration passes via: from the body, the head is not reached again without it
+		body := g.succ[ev][0]
+		if !via(body) {
+			seen, _ := g.reach([]int{body}, via, nil)
+			if seen[g.off[i]] {
+				return false
+			}
+		}
+		cut[ev] = true
+	}
+	if len(cut) == 0 {
+		return false
+	}
+	if via(g.Entry) {
+		return true
+	}
+	seen, _ := g.reach([]int{g.Entry}, via, func(u, k int) bool { return cut[u] && k == 1 })
+	for _, x := range g.Exits {
+		if seen[x] {
+			return false
+		}
+	}
+	return true
 }
